@@ -20,6 +20,41 @@ CHECKS = {
          "Mutants are re-signed with the publisher key (the harness owns it), so the signature check alone cannot mask header checks; the 'valid block rejected' outcome is an infrastructure error, not a C04 verdict.",
          "TLA+ spec + TLC exhaustive model checking of the design; record->validate of real visor histories edge by edge by TLC",
          "DESIGN.md 4.1, 5 C04, 9"),
+ "C03": ("ledger", "model_checking",
+         "Same engine as C01. Ledger.tla states the hour rule exactly (sum of output hours, never wrapping, <= hours the inputs have accrued at the previous block's time by the coin-hour formula of Fn.tla; an input whose final addition overflows counts zero inside a block and is refused for a new unconfirmed transaction). Real follower histories offer blocks whose outputs carry exactly the accrued hours (must be accepted), one hour more, several more, and a pair of outputs whose hours wrap around 2^64 (accepted by the real code: known finding F16, after which the history continues on the follower alone and exercises the legacy rule: the overflowing input counts zero). Admission of unconfirmed transactions with overflowing output hours is checked on the pool records (TxPool.tla).",
+         "The wrap of the output-hour sum inside blocks is a recorded known finding (documented legacy behaviour, needs a hard fork); monotonic accrual follows from the definition of CoinHours in Fn.tla, which C31 binds to the code.",
+         "TLA+ spec + TLC exhaustive model checking of the design; record->validate of real visor histories edge by edge by TLC",
+         "DESIGN.md 4.1, 5 C03, 9"),
+ "C05": ("pool", "model_checking",
+         "TxPool.tla defines the publisher's block as: candidates = hard and soft valid (create-block parameters), sorted by floor(fee*1024/size) descending then hash ascending, longest prefix within the block size, capped, then arbitration that drops a transaction exactly when it conflicts with one already included. MCTxPool checks on a small universe (every interleaving of injections, refresh, removal and block creation) that this block is Valid for an independent node (Ledger.tla), holds only admissible transactions, fits the size, is ordered, and that of conflicting candidates exactly the first is in it. On a real arbitrating publisher visor (bolt file) every create call is recorded with the pool it saw; TLC recomputes the expected transaction list from the logged state and compares; every created block is then executed by a real independent follower (edge oracle).",
+         "Transaction sizes from the reflection encoder, hash order computed by the recorder; sigsOK by construction; TLC/SANY/Json trusted.",
+         "TLA+ spec + TLC exhaustive model checking of the design; record->validate of a real publisher visor's block creation by TLC",
+         "DESIGN.md 4.1, 5 C05, 9"),
+ "C06": ("pool", "model_checking",
+         "TxPool.tla defines admission (foreign: hard rules, soft failure only clears the valid flag; user: user rules, hard rules, soft rules with the user parameters, any failure changes nothing), re-submission (membership unchanged), Refresh (every flag = fresh hard and soft check; returns those that became valid), RemoveInvalid (removes exactly the hard-invalid ones) and removal of confirmed transactions. MCTxPool checks the declarative statements on every interleaving of a small universe. Seeded histories on a real publisher and follower visor (valid, fee-boundary, precision, locked, null-address, bad-signature, unknown/spent-input, oversize, hour-overflow, conflicting and chained-conflict transactions) are recorded operation by operation; TLC computes result class and post pool from the logged state for each record; block executions are checked for removing their transactions from the pool.",
+         "The rules are evaluated by TLC from raw logged fields (inputs, outputs, sizes, unspent set, head time, parameters); sigsOK by construction; TLC/SANY/Json trusted.",
+         "TLA+ spec + TLC exhaustive model checking of the design; record->validate of real visor pool operations by TLC",
+         "DESIGN.md 4.1, 5 C06, 9"),
+ "C09": ("txn", "exploration",
+         "TxnRules.tla states well-formedness as a predicate over a transaction's raw fields (inputs, outputs, signature forms by construction, type, length field vs measured size, inner hash). The complete decision table of the small abstract domain (0..2 inputs and outputs, every fault on/off, every signature valid / null / non-canonical: 4224 vectors) is built as real transactions and passed to Verify and VerifyUnsigned; plus seeded random vectors with up to 3 inputs/outputs and four kinds of unacceptable signature, and DeserializeTransaction on mutated byte strings (decodes => re-encodes to the same bytes, never panics). TLC evaluates the predicate on every record.",
+         "Exhaustive over the stated abstract domain, sampling beyond it; arbitrary byte strings are sampled; signature forms are what the recorder constructed.",
+         "TLA+ predicate (executable specification) evaluated by TLC on an enumerated decision table and on recorded calls of the real functions",
+         "DESIGN.md 5 C09, 9"),
+ "C11": ("txn", "exploration",
+         "TxnRules.tla/TxPool.tla state the soft rules over exact naturals (size <= limit, fee = input hours at the head time - output hours > 0 and fee*burn >= input hours, no input owned by a locked distribution address, every output a multiple of 10^(6-precision)). VerifySingleTxnSoftConstraints is recorded on generated transactions with fees at required-1 / required / required+1, sizes at limit-1 / limit / limit+1, all burn factors and precisions; the error class must be soft. On the path that applies user, hard and soft rules in order (real InjectUserTransaction / InjectForeignTransaction on a visor) the reported class is compared with the first failing rule set.",
+         "Sampling with boundary placement; the standalone function is only required to return nil or a soft error.",
+         "TLA+ definitions evaluated by TLC on recorded calls of the real functions and on real visor injections",
+         "DESIGN.md 5 C11, 9"),
+ "C12": ("txn", "exploration",
+         "TxnRules.tla CreateVerdict is the postcondition of spend construction: an invalid request gets a user-level error; a valid request gets a user-level error only if the offered outputs cannot cover coins and hours (computed exactly from all offered outputs); otherwise an unsigned well-formed transaction whose inputs are distinct offered outputs, whose first outputs are the requested ones exactly, whose change output exists iff coins remain, carries exactly the remainder and goes to the change address (or the smallest spent address), whose automatic hours sum to the allotted share, and which burns at least the required fee. transaction.Create is recorded on seeded requests (manual/auto, share factors, small exact-match universes, invalid receivers) and TLC evaluates the verdict per record.",
+         "Sampling; which outputs are chosen is left open, as the property does; the allotted amount may have been computed before an extra input was added for change.",
+         "TLA+ postcondition evaluated by TLC on recorded calls of transaction.Create",
+         "DESIGN.md 5 C12, 9"),
+ "C13": ("txn", "exploration",
+         "TxnRules.tla SignVerdict: signing succeeds iff the wallet can sign (not watch-only, not encrypted), the inner hash is right, some input is unsigned, the indexes are in range and distinct, every target (the indexes, or all unsigned inputs) is unsigned and owned by the wallet; then exactly the targets become signed, each new signature verifies against the spent output's address, existing signatures are byte-identical, inputs/outputs/inner hash are unchanged; in every case the caller's transaction is untouched. wallet.SignTransaction is recorded over deterministic, collection, bip44 and xpub wallets x encryption x index patterns x ownership x pre-signed patterns.",
+         "Sampling of the case table; ownership and pre-signed patterns are what the recorder constructed.",
+         "TLA+ postcondition evaluated by TLC on recorded calls of wallet.SignTransaction",
+         "DESIGN.md 5 C13, 9"),
  "C22": ("wire", "model_checking",
          "Framing.tla's Step (append a read, extract every complete frame, invalid length disconnects) is model-checked for every split of every small stream into reads (MCFraming: in-order delivery, nothing lost or duplicated, bad length disconnects). The real bytes.Buffer+decodeData loop, convertToMessage and random byte strings are recorded call by call (gnet overlay) and TLC checks every record: delivered frames and remaining buffer per read, whole-stream delivery, dispatch verdicts, no panic, canonical re-encoding.",
          "convertToMessage is exercised with the overlay's own registered message type (daemon message codecs belong to C21/C25); the timing of a disconnect follows the code (decided once the prefix plus one byte are buffered); TLC/SANY/Json trusted.",
